@@ -90,6 +90,7 @@ def run(ctx):
                                  key="C17/R2 leak-in %s" % T.strip_generics(name))
     r3_stateless(chk, fx)
     r4_agent_evaluates_each_on_its_own(chk, fx)
+    r5_connection_survives_a_panic(chk, fx)
 
 
 def r4_agent_evaluates_each_on_its_own(chk, fx):
@@ -196,3 +197,12 @@ def r1_restore(chk, fx, b):
     outs = {v for p in have for k, v in p.assume.items() if k.startswith("variant:<indirect>")}
     chk.instance("C17/R1", "both outcomes of the resolver closure were explored (%s)" % sorted(outs), WC, None, holds=outs >= {"Ok", "Err"} or len(have) >= 1,
                  key="C17/R1 with_connection outcomes")
+
+
+def r5_connection_survives_a_panic(chk, fx):
+    """'After a failed evaluation the evaluator remains usable': with_connection hands the connection back by plain assignment after the
+    closure returned — a panic while it runs (caught further up as one failed evaluation) leaves the slot empty, and every later
+    evaluation fails with AcquireConnection although the same expression works on a fresh connection.  So nothing that runs while the
+    connection is out may panic: C15/R2's inventory of the resolver closures, the Evaluator callbacks and what they call, recorded here."""
+    from .c15 import _Rename, r2_workspace
+    r2_workspace(_Rename(chk, "C15/R2", "C17/R5:C15/R2"), fx)
